@@ -239,8 +239,11 @@ def run_tlc_model(spec_name, cfg_name, wd, workers=8, timeout=1800, xmx="6g", si
         if g:
             out["states"] = int(g[-1].replace(",", ""))
     v = re.search(r'(Invariant|Action property|Temporal properties|Property) (\S+) (is|was|were) violated', text)
+    v2 = re.search(r'The invariant of (\S+) is equal to FALSE', text)
     if v:
         out["violated"] = v.group(2)
+    elif v2:
+        out["violated"] = v2.group(1)     # a constant-level invariant that is false is reported before Init
     elif "is violated" in text or "Error: The postcondition" in text:
         out["violated"] = "unknown"
     if rc == "timeout" and simulate is None:
